@@ -54,6 +54,9 @@ def gen_obj(rng):
     obj = {'kind': kind, 'formula': lang.to_jsonable(f), 'data': data, 'reps': rng.choice([1, 2, 2, 3])}
     if rng.random() < 0.3 and any(g[1] is not None for g in lang.walk(f)):
         obj['units'] = rng.choice(['s', 'ms', 'us'])
+    if kind in ('dt_off', 'ct_off') and len(names) >= 2 and rng.random() < 0.4:
+        obj['poison'] = rng.choice(names)
+        obj['reps'] = max(obj['reps'], 2)
     return obj
 
 
@@ -74,7 +77,25 @@ def obj_sd(obj):
         pr = lambda i: '[%ss,%ss]' % (lang.num(i[0]), lang.num(i[1]))
     sd['text'] = lang.to_text(f, ivl_printer=pr)
     sd['unit'] = u
+    if obj.get('period') and not dense:
+        sd['period'] = (obj['period'][0], obj['period'][1], 0.1)
     return sd
+
+
+def heavy(obj):
+    """Bounded since/until/unless: rtamt's evaluation is quadratic in the window, keep those on the 1 s period."""
+    return any(g[0] in ('since', 'until', 'unless') and g[1] is not None and g[1][1] > 0
+               for g in lang.walk(lang.from_jsonable(obj['formula'])))
+
+
+def confusable_periods(rng, a, b):
+    """Two objects with the same interval text whose sampling periods have the same number and another unit."""
+    if a.get('units') and b.get('units') and a['kind'].startswith('dt') and b['kind'].startswith('dt') \
+            and not heavy(a) and not heavy(b):
+        pa, pb = rng.sample(['s', 'ms'], 2)            # (us: 15 s would be a 15e6-sample window)
+        a['period'], b['period'] = [1, pa], [1, pb]
+        return True
+    return False
 
 
 def calls_of(obj):
@@ -166,6 +187,8 @@ class C11(Prop):
             objs[1] = dict(objs[0])                     # same text, same data, separate object
             if objs[1].get('units') and rng.random() < 0.7:
                 objs[1]['units'] = rng.choice([u for u in ('s', 'ms', 'us') if u != objs[0]['units']])
+            elif objs[1].get('units'):
+                confusable_periods(rng, objs[0], objs[1])
         order = []
         for i, o in enumerate(objs):
             order += [i] * len(calls_of(o))
@@ -206,6 +229,16 @@ class C11(Prop):
             if tw.events:
                 v.info['tripwire-hits-without-net-change'] = 1
             results.append(monitors.plain(r))
+            if obj.get('poison') and len(results) == 1 and obj['kind'] in ('dt_off', 'ct_off'):
+                # a call that fails part-way (one variable carries no numbers) on other data: whatever it
+                # leaves behind must not show in the following evaluations of the good data
+                pdata = dict((k, [x + 1.0 for x in reversed(vals)]) for k, vals in obj['data'].items())
+                pdata[obj['poison']] = [None] * len(pdata[obj['poison']])
+                try:
+                    getattr(m, meth)(*build_args(dict(obj, data=pdata), spec))
+                    v.info['poisoned-call-returned'] = 1
+                except Exception:
+                    v.info['poisoned-call-raised'] = 1
             # the returned object must not alias caller data in a way a later call could disturb:
             # checked behaviourally by the repeat below
         if obj['kind'] in ('dt_off', 'ct_off') and len(results) >= 2:
@@ -268,15 +301,25 @@ class C11(Prop):
         for g in range(groups):
             k = rng.randint(2, 3)
             base = gen_obj(rng)
+            if g % 2:
+                for _ in range(200):
+                    if base['kind'].startswith('dt') and not heavy(base) and any(
+                            gg[1] is not None for gg in lang.walk(lang.from_jsonable(base['formula']))):
+                        break
+                    base = gen_obj(rng)
             objs = [base]
             for j in range(1, k):
-                o = dict(base) if rng.random() < 0.6 else gen_obj(rng)
+                o = dict(base) if (rng.random() < 0.6 or (g % 2 and j == 1)) else gen_obj(rng)
                 objs.append(o)
             units = ['s', 'ms', 'us']
             rng.shuffle(units)
             for j, o in enumerate(objs):
                 if any(gg[1] is not None for gg in lang.walk(lang.from_jsonable(o['formula']))):
                     o['units'] = units[j % 3]
+            if g % 2 and objs[0].get('units') and objs[1]['formula'] == objs[0]['formula']:
+                objs[1]['units'] = objs[0]['units']
+                if confusable_periods(rng, objs[0], objs[1]):
+                    ctx.count('cross-process-confusable-periods', 1)
             procs = [subprocess.Popen([sys.executable, '-B', '-c', code], env=env, stdin=subprocess.PIPE,
                                       stdout=subprocess.PIPE, stderr=subprocess.PIPE) for _ in objs]
             refs = []
